@@ -4,7 +4,9 @@ RULE = ("histories of one session between a real ClientConn and a real Server ov
         "undecodable request, payloads empty..2 KB), frame delivery in any order relative to other events, handler returns in any order, context "
         "expiry, failed writes, connection loss and recovery, and (dishonest class) injected forged responses, requests and empty envelopes; the "
         "label sequence and the observed results, handler instances, pending tables and frames in flight are replayed through Session.exec; "
-        "independently every reply must embed the caller's own token; distinct = distinct step sequence")
+        "independently every reply must embed the caller's own token; handler error texts, forged error texts, tokens and unknown method names "
+        "contain '%' sequences (\"disk 100% full\", \"%d\", \"%s%!\", \"%%\") in both call directions: text is data and must arrive unchanged; "
+        "distinct = distinct step sequence")
 ASSUMPTIONS = ["quiescence after a step is detected by the observable state being stable over 8 consecutive samples",
                "call ids (uuid.NewString) do not collide: the theorems assume NoDup of the ids of a history"]
 FILES = ["root/fake_test.go", "root/c16_test.go", "root/c07_test.go", "root/session_test.go", "root/c01_test.go"]
